@@ -6,3 +6,14 @@ done
 export PATH
 export GOTOOLCHAIN=local GOFLAGS=-mod=mod GOPROXY=off GOSUMDB=off GONOSUMDB='*' GONOSUMCHECK=1
 export VERIF_ROOT
+
+# the tree to verify: /repo unless VERIF_REPO points at a scratch copy (used for background runs on a snapshot)
+VERIF_REPO="${VERIF_REPO:-/repo}"
+export VERIF_REPO
+if [ "$VERIF_REPO" != "/repo" ]; then
+  mkdir -p "$VERIF_ROOT/.build/modfiles"
+  _mf="$VERIF_ROOT/.build/modfiles/$(echo "$VERIF_REPO" | sha1sum | cut -c1-12).mod"
+  sed "s#=> /repo\$#=> $VERIF_REPO#" "$VERIF_ROOT/go.mod" > "$_mf"
+  cp "$VERIF_ROOT/go.sum" "${_mf%.mod}.sum"
+  export GOFLAGS="-mod=mod -modfile=$_mf"
+fi
